@@ -920,8 +920,8 @@ Example inheritance_transparent_instance :
     forallb seg_condb (rs_segments st) = true /\
     same_reading st st' /\
     map sg_pos (rs_segments st) = [0; 199; 345; 395] /\
-    map sg_pos (rs_segments st') = [0; 199; 377; 566] /\
-    map (fun kv => (fst kv, om_len (snd kv), om_dtype (snd kv), map p_name (om_props (snd kv))))
+    map sg_pos (rs_segments st') = [0; 199; 404; 581] /\
+    map (fun kv => (fst kv, om_len (snd kv), om_dtype (snd kv), map fst (om_props (snd kv))))
         (rs_om st') =
       [ (ExS.pR, 0, None, []); (ExS.pG, 0, None, [["n"%byte]]);
         (ExS.pA, 12, Some 3, [["u"%byte]; ["v"%byte]]);
@@ -940,7 +940,7 @@ Example inheritance_transparent_files_instance :
   rd_metadata (ser_file (explicit_segs ExS.segs ExS.objss)) false
               (Some (blen (ser_file (explicit_segs ExS.segs ExS.objss)))) true
     = sm_run (explicit_segs ExS.segs ExS.objss) true /\
-  blen (ser_file ExS.segs) = 442 /\ blen (ser_file (explicit_segs ExS.segs ExS.objss)) = 600.
+  blen (ser_file ExS.segs) = 462 /\ blen (ser_file (explicit_segs ExS.segs ExS.objss)) = 771.
 Proof.
   assert (H1 : wf_file ExS.segs) by (unfold wf_file; vm_compute; reflexivity).
   assert (H2 : wf_file (explicit_segs ExS.segs ExS.objss)) by (unfold wf_file; vm_compute; reflexivity).
